@@ -23,7 +23,7 @@ from core import Exn, call, cstr, cbool, clist
 from reqgen import KINDS, KIND_ORDER, BINDINGS, NOW, cfgspec, rspec
 
 CLAIM = {
-    "text": "Coq theorems (Props/C10.v, 14, all closed) over an executable model of Entity._parse_request (receiver addresses per service/binding/context with the aa/aq/pdp fallback and the odd-endpoint-spec branch of Config.endpoint, accepted_time_diff, the section the want_* options are read from, must = want_authn_requests_signed or want_authn_requests_only_with_valid_cert), Entity.unravel per binding incl. the SOAP envelope reader, Request._loads (every non-TypeError exception of the signature check ends in IncorrectlySigned; valid_instance), SecurityContext.correctly_signed_message (root element test, unsigned-and-must, signed -> _check_signature: certificate selection of C03, per-certificate tool runs with the symbolic tool semantics of Model/Xmlsec.v, certificate validation) and Request._verify (Version, Destination, IssueInstant window). PROVED for every configuration, request kind, binding and received text, and for both states of the C01 pre-check (C10_handed_over_only_if_valid): a request is handed to the application only if the text is a clean encoding of it, its root element is the expected request type of that entry point, valid_instance passed, Version is 2.0, Destination is absent/empty or one of the receiver's own addresses for that service and binding (or the receiver has none), IssueInstant lies in [now-86400-slack, now+86400+slack), a signature child on the root verified (tool semantics, either duplicate-ID policy) under a candidate certificate of the issuer that also passed certificate validation - with only_use_keys_in_metadata (the default) a certificate the metadata holds for the issuer with use signing - and want_authn_requests_signed / only_with_valid_cert imply a signature is present; C10_own_options_honoured restates the last clause for the options CONFIGURED in the section of the entity's own type (idp or aa). These are theorems about the model of the library as repaired by three fix: commits in /repo: 0b54cc6b (F16: _check_signature insists on a verified signature whatever only_valid_cert says; C10_before_fix_refuted keeps the witness, C10_repair_keeps_the_rest shows nothing else changes) and dace676c (an attribute authority's own want_* options are read; C10_options_before_fix_refuted keeps the witness), and f6d4380b (the C01 enveloping pre-check; Model/Request.v PRECHECK_IN_FORCE = true, C10_code_state). PROVED for today's code state, WITH the enveloping pre-check of the C01 repair (pre = true): the verified signature is the root's only Signature child, refers to the root's ID and digests exactly the root without it (C10_signature_covers_request), hence every modification of a signed request is refused when the sender's keys signed nothing else (C10_tamper). For the library before f6d4380b (no pre-check) that half is REFUTED by a wrapping witness (C10_covers_refuted_without_precheck) and proved under the hypothesis that the pre-check predicate holds of the received document (C10_covers_partial, C10_tamper_partial). C10_table_is_documented: the entry-point table (method -> request class, msgtype, service, root tag accepted by <msgtype>_from_string, SOAP reader and its root tag, pass-through of the text and must), regenerated from the code by recording on every run, equals the table the model uses. C10_undecodable_refused, C10_wrong_root_refused, C10_witness (non-vacuity). Tie to the code: on every run the real entry points (8 parse_* methods on IdP / AA / SP entities plus Saml2Client.handle_logout_request) and the model are run on the same ~6 700 cases (all 8 request kinds, Redirect/POST/SOAP and the odd bindings, signed/unsigned/wrong key x want_authn_requests_signed x only_with_valid_cert x validate_certificate x only_use_keys_in_metadata x 7 metadata key layouts, 17 mutation operators on signed requests and 33 wrapping variants under both duplicate-ID policies, destination variants incl. near misses over 8 endpoint layouts, IssueInstant around both edges for 4 allowances, versions, schema-invalid requests, wrong roots, truncated/garbled encodings and SOAP shapes, seeded random combinations), compared at handed-over/refused granularity.",
+    "text": "Coq theorems (Props/C10.v, 14, all closed) over an executable model of Entity._parse_request (receiver addresses per service/binding/context with the aa/aq/pdp fallback and the odd-endpoint-spec branch of Config.endpoint, accepted_time_diff, the section the want_* options are read from, must = want_authn_requests_signed or want_authn_requests_only_with_valid_cert), Entity.unravel per binding incl. the SOAP envelope reader, Request._loads (every non-TypeError exception of the signature check ends in IncorrectlySigned; valid_instance), SecurityContext.correctly_signed_message (root element test, unsigned-and-must, signed -> _check_signature: certificate selection of C03, per-certificate tool runs with the symbolic tool semantics of Model/Xmlsec.v, certificate validation) and Request._verify (Version, Destination, IssueInstant window). PROVED for every configuration, request kind, binding and received text, and for both states of the C01 pre-check (C10_handed_over_only_if_valid): a request is handed to the application only if the text is a clean encoding of it, its root element is the expected request type of that entry point, valid_instance passed, Version is 2.0, Destination is absent/empty or one of the receiver's own addresses for that service and binding (or the receiver has none), IssueInstant lies in [now-86400-slack, now+86400+slack), a signature child on the root verified (tool semantics, either duplicate-ID policy) under a candidate certificate of the issuer that also passed certificate validation - with only_use_keys_in_metadata (the default) a certificate the metadata holds for the issuer with use signing - and want_authn_requests_signed / only_with_valid_cert imply a signature is present; C10_own_options_honoured restates the last clause for the options CONFIGURED in the section of the entity's own type (idp or aa). These are theorems about the model of the library as repaired by three fix: commits in /repo: 0b54cc6b (F16: _check_signature insists on a verified signature whatever only_valid_cert says; C10_before_fix_refuted keeps the witness, C10_repair_keeps_the_rest shows nothing else changes) and dace676c (an attribute authority's own want_* options are read; C10_options_before_fix_refuted keeps the witness), and f6d4380b (the C01 enveloping pre-check; Model/Request.v PRECHECK_IN_FORCE = true, C10_code_state). PROVED for today's code state, WITH the enveloping pre-check of the C01 repair (pre = true): the verified signature is the root's only Signature child, refers to the root's ID and digests exactly the root without it (C10_signature_covers_request), hence every modification of a signed request is refused when the sender's keys signed nothing else (C10_tamper). For the library before f6d4380b (no pre-check) that half is REFUTED by a wrapping witness (C10_covers_refuted_without_precheck) and proved under the hypothesis that the pre-check predicate holds of the received document (C10_covers_partial, C10_tamper_partial). C10_table_is_documented: the entry-point table (method -> request class, msgtype, service, root tag accepted by <msgtype>_from_string, SOAP reader and its root tag, pass-through of the text and must), regenerated from the code by recording on every run, equals the table the model uses. C10_undecodable_refused, C10_wrong_root_refused, C10_witness (non-vacuity). Tie to the code: on every run the real entry points (8 parse_* methods on IdP / AA / SP entities plus Saml2Client.handle_logout_request) and the model are run on the same ~7 300 cases (all 8 request kinds, Redirect/POST/SOAP and the odd bindings, signed/unsigned/wrong key x want_authn_requests_signed x only_with_valid_cert x validate_certificate x only_use_keys_in_metadata x 7 metadata key layouts, 17 mutation operators on signed requests and 33 wrapping variants under both duplicate-ID policies, genuinely signed requests whose Extensions carry the request's ID (or a near miss) on an element of another name, destination variants incl. near misses over 8 endpoint layouts, IssueInstant around both edges for 4 allowances, versions, schema-invalid requests, wrong roots, truncated/garbled encodings and SOAP shapes, seeded random combinations), compared at handed-over/refused granularity.",
     "note": "Trusted: Coq kernel + vm_compute; the hand-written model is tied to the code by testing (the correspondence above), not proof; signatures are symbolic (a signature node records key, intactness and the digested content) and every statement about verification is relative to the stand-in tool's node-selection semantics (real xmlsec1 is absent); valid_instance (C13), certificate-chain validation (cert.py) and the transport decoders (C14) enter the model as classified inputs computed by the harness itself. Three defects found by this check were repaired in /repo (known_findings.json 'fixed'): F16 (0b54cc6b), the aa option section (dace676c) and request wrapping (5 oracle keys wrapped-request-handed-over:*, repaired with C01's pre-check f6d4380b); the oracle keys stay in the harness and report them again if they return. Only tested, not proved: agreement of model and code; the IssueInstant edges exactly at now-86400-slack and now+86400+slack are run but not compared; a Redirect-binding query-string signature is never seen by _parse_request (the application must call verify_redirect_signature, property C15); an IdP serving attribute queries through the aa/aq/pdp endpoint fallback reads the want options of its idp section only (not generated).",
     "technique": "machine-checked proof (Coq) + regenerated-table obligation + model/implementation correspondence + implementation-level oracle",
 }
@@ -501,6 +501,29 @@ def fam_wrapping(C, quick):
             C.add_doc("wrapping", cs, "logout", "soap", mm[0], _named(mm[1], w), r, signer="idp")
 
 
+def fam_foreign_carrier(C, quick):
+    """GENUINELY signed requests whose (signed) samlp:Extensions hold elements of another name that carry an ID: another
+    value, a near miss, or the request's OWN ID.  _enveloped_signature_ok counts the carriers of the ID among the elements
+    of ANY name (Model/Xmlsec.v precheck: all_ids) - the tool would verify such a document (it only registers the IDs of
+    elements named like the request), the pre-check refuses it."""
+    for kind, bname, dup, want in itertools.product(["authn", "logout", "attrq", "mni"], ["post", "soap", "redirect"], ["fail", "first"], [None, True]):
+        if quick and (bname == "redirect" and kind != "authn"):
+            continue
+        if quick and dup == "first" and kind not in ("authn", "logout"):
+            continue
+        cs = cfgspec(want=want, dup=dup)
+        rid = "rq-1"
+        for ext_ids in ([rid], ["rq-2"], [rid + "x"], ["RQ-1"], ["rq-2", rid], [["rq-2", rid]], [["rq-2", "rq-3"]], ["rq-2", "rq-2"], [rid, rid]):
+            r = dict(rspec(kind=kind, rid=rid), ext_ids=ext_ids)
+            for st in (["signed"] if quick and (want or bname == "redirect") else ["signed", "wrongkey", "unsigned", "corrupt-digest"]):
+                signed_states(C, "foreign-carrier", cs, kind, bname, r, [st])
+    # the same towards an SP (LogoutRequest from the IdP)
+    cs = cfgspec(etype="sp", eps="sp-full")
+    for ext_ids in ([ "rq-1"], ["rq-2"], [["rq-2", "rq-1"]]):
+        r = dict(rspec(kind="logout", issuer=env.IDP_ID), ext_ids=ext_ids)
+        signed_states(C, "foreign-carrier", cs, "logout", "soap", r, ["signed", "unsigned"])
+
+
 def fam_wrong_root(C, quick):
     """a request of another kind (signed or not), a response, the right local name in another namespace"""
     for kind, other, bname, want, signed in itertools.product(KIND_ORDER, KIND_ORDER, ["post", "soap"], [None, True], [False, True]):
@@ -640,6 +663,7 @@ def run(ctx):
         fam_cert_selection(C, ctx.quick)
         fam_mutations(C, ctx.quick)
         fam_wrapping(C, ctx.quick)
+        fam_foreign_carrier(C, ctx.quick)
         fam_handle_logout(C, ctx.quick)
         fam_wrong_root(C, ctx.quick)
         fam_encodings(C, ctx.quick)
